@@ -248,6 +248,8 @@ func (v *Verifier) structural(cfg PropConfig, sc StructuralCheck) []StructResult
 		return v.typestate(cfg, sc)
 	case "maporder":
 		return v.mapOrder(cfg, sc)
+	case "result_coupling":
+		return v.resultCoupling(cfg, sc)
 	case "callers_subset":
 		var a struct {
 			Callee  string   `json:"callee"`
